@@ -788,3 +788,58 @@ Section DrainAny.
         end
     end.
 End DrainAny.
+
+(* ---- flatfile/fixedlength/reader.go: the unprocessed-lines buffer and its aliasing discipline -- *)
+(* A line in reader.linesBuf either owns a copy of its bytes or refers into bufio.Reader's
+   internal buffer as it was after the ByteReadLine call number ll_gen.  Every further call on the
+   bufio.Reader may move the buffer (documented contract of ReadLine/ReadSlice: "the bytes stop
+   being valid at the next read"), i.e. bumps the generation; reading a stale reference is
+   Poison.  Any number of lines may be buffered (multi-line envelopes: rows: n, header/footer). *)
+Record lbline := mkLL { ll_copied : bool; ll_gen : nat }.
+Record lbstate := mkLB { lb_lines : list lbline; lb_gen : nat }.
+Definition lb_init : lbstate := mkLB [] 0.
+
+Inductive lbop :=
+| LRead (empties : nat) (got : bool)
+    (* readLine(): `empties` empty lines are skipped first; got = a non-empty line was appended
+       (false: io.EOF or a read error ended the call) *)
+| LReadNoCopy (empties : nat) (got : bool)
+    (* the same without the copy of the last unprocessed line (NOT what the code does: used by
+       the refutation below) *)
+| LPop (n : nat)      (* popFrontLinesBuf(n) *)
+| LUse (n : nat).     (* linesToNode / matchHeader / matchFooter / lineMatch read linesBuf[0..n) *)
+
+Inductive lbres := LOk (st : lbstate) | LPoison | LPanic.
+
+(* reader.go:151-160: turn the last element into a copy unless it already is one *)
+Definition lb_copy_last (ls : list lbline) : list lbline :=
+  match ls with
+  | [] => []
+  | _ => removelast ls ++ [mkLL true (ll_gen (last ls (mkLL true 0)))]
+  end.
+
+Definition lb_valid (g : nat) (l : lbline) : bool := ll_copied l || (ll_gen l =? g).
+
+Definition lb_step (st : lbstate) (o : lbop) : lbres :=
+  match o with
+  | LRead empties got =>
+      let ls := lb_copy_last (lb_lines st) in
+      let g := lb_gen st + empties + 1 in
+      LOk (mkLB (if got then ls ++ [mkLL false g] else ls) g)
+  | LReadNoCopy empties got =>
+      let g := lb_gen st + empties + 1 in
+      LOk (mkLB (if got then lb_lines st ++ [mkLL false g] else lb_lines st) g)
+  | LPop n =>
+      if length (lb_lines st) <? n then LPanic else LOk (mkLB (skipn n (lb_lines st)) (lb_gen st))
+  | LUse n =>
+      if length (lb_lines st) <? n then LPanic
+      else if forallb (lb_valid (lb_gen st)) (firstn n (lb_lines st)) then LOk st else LPoison
+  end.
+
+Fixpoint lb_run (st : lbstate) (ops : list lbop) : lbres :=
+  match ops with
+  | [] => LOk st
+  | o :: r => match lb_step st o with LOk st' => lb_run st' r | x => x end
+  end.
+
+Definition lb_code_op (o : lbop) : bool := match o with LReadNoCopy _ _ => false | _ => true end.
